@@ -52,6 +52,17 @@ fn has_nl(s: &str) -> bool {
 }
 
 /// iterate with an explicit horizon; Err(reason) = totality / line-terminator violation
+/// every `&str` of the record is valid UTF-8 (checked on its bytes, without touching it as a str)
+pub fn rec_utf8_ok(rec: &ProguardRecord<'_>) -> bool {
+    let ok = |s: &str| std::str::from_utf8(s.as_bytes()).is_ok();
+    match rec {
+        ProguardRecord::Header { key, value } => ok(key) && value.map(ok).unwrap_or(true),
+        ProguardRecord::Class { original, obfuscated } => ok(original) && ok(obfuscated),
+        ProguardRecord::Field { ty, original, obfuscated } => ok(ty) && ok(original) && ok(obfuscated),
+        ProguardRecord::Method { ty, original, obfuscated, arguments, original_class, .. } => ok(ty) && ok(original) && ok(obfuscated) && ok(arguments) && original_class.map(ok).unwrap_or(true),
+    }
+}
+
 fn items(bytes: &[u8]) -> Result<Vec<Item<'_>>, (&'static str, String)> {
     let mut v = Vec::new();
     let cap = bytes.len() + 1;
@@ -71,6 +82,9 @@ fn items(bytes: &[u8]) -> Result<Vec<Item<'_>>, (&'static str, String)> {
                 };
                 if bad {
                     return Err(("terminator-in-record", format!("a yielded record contains a line terminator: {:?}", rec)));
+                }
+                if !rec_utf8_ok(&rec) {
+                    return Err(("invalid-utf8-in-record", "a yielded record contains a str that is not valid UTF-8 (not printed: formatting it would be undefined behaviour)".to_string()));
                 }
                 v.push(Item::Ok(format!("{:?}", rec)));
             }
@@ -235,6 +249,7 @@ pub const SECTION_TEXTS: [&str; 4] = ["\u{e9}.\u{dc} -> \u{e9}:\n    int f -> \u
 pub fn sections_family(acc: &mut Acc) {
     fn shown(m: &ProguardMapping<'_>, cap: usize) -> Vec<String> {
         m.iter().take(cap).map(|r| match r {
+            Ok(rec) if !rec_utf8_ok(&rec) => "Ok(record containing a str that is not valid UTF-8)".to_string(),
             Ok(rec) => format!("{:?}", rec),
             Err(e) => format!("Err({:?})", esc(e.line())),
         }).collect()
